@@ -25,6 +25,11 @@ def main():
         k = sys.argv.index("--checks")
         only_checks = sys.argv[k + 1].split(",")
         del sys.argv[k:k + 2]
+    scale = ""
+    if "--scale" in sys.argv:
+        k = sys.argv.index("--scale")
+        scale = " --scale " + sys.argv[k + 1]
+        del sys.argv[k:k + 2]
     out_name = None
     if "--out" in sys.argv:
         k = sys.argv.index("--out")
@@ -58,7 +63,7 @@ def main():
                 ids = [prop] if prop in ALL else ALL
             for pid in ids:
                 t = time.time()
-                rc, o = sh("./check %s --tier quick" % pid, cwd=ROOT + "/verif", env=env)
+                rc, o = sh("./check %s --tier quick%s" % (pid, scale), cwd=ROOT + "/verif", env=env)
                 sigs = [l.strip().split(" ")[0].replace("signature=", "") for l in o.split("\n") if l.strip().startswith("signature=")]
                 row[pid] = {"exit": rc, "s": round(time.time() - t, 1), "signatures": sigs[:4]}
             matrix[m] = row
